@@ -68,6 +68,10 @@ CHECKS = {
    technique="symbolic execution (z3-backed bytes) of cpu.disassemble with the real hooks, focused in turn on every shipped spec and unfocused on short inputs: a path ending in an exception is a violation for its whole path condition; two solver witnesses of every path are pushed through rendering (each syntax), pickling and icore.__call__",
    text="Bounded model checking of decode totality per cpu module/mode/spec (all inputs of length maxlen matching the spec's fixed bits; all inputs of length 0..3), plus exploration of the post-decode stages on solver witnesses of every explored path. Violations are keyed by the failing call site (cpu, mnemonic, stage / innermost amoco frame) and replayed concretely.",
    note="trusted: z3, symx proxies and SymDict; register selectors realized under a cap of 2; stage (b) is exploration on witnesses, not a bounded proof; amoco has several hundred genuine crashes here, each listed individually in known_findings.json (generated from a thorough run): anything not listed is reported"),
+ "C06": dict(level="translation_validation", engine="E1", design="DESIGN.md section 4 C06",
+   technique="symbolic execution of the decoded instruction's i_XXX semantics by amoco's own mapper on register/memory symbols, translation of the resulting map to z3 bit-vector/array terms, and an SMT equivalence proof against (x86-64) a z3 transcription of the SDM operation sections that is itself validated on the host CPU by executing the same bytes natively, (RISC-V) a z3 transcription of the unprivileged ISA manual; wide products/quotients first with the operator abstracted to an uninterpreted function",
+   text="Per encoding (one decoded instruction), for ALL initial register, flag and memory values: every 64-bit register, rip/pc, each architecturally defined flag and every memory byte of amoco's result map is proven equal to the reference model (unsat), or a concrete state is produced, replayed through the real decoder+mapper from a concrete state and reported. x86-64: ~1500 encodings (quick: ~600) of the general-purpose subset (ALU, shifts/rotates, MUL/IMUL/DIV/IDIV, MOV/MOVZX/MOVSX/LEA/XCHG/XADD/CMPXCHG, PUSH/POP/CALL/RET/JMP/Jcc/SETcc/CMOVcc, CBW..CQO, BT*, BSWAP, NEG/NOT/INC/DEC), all operand sizes, REX/66 prefixes, register and memory forms; RISC-V: every RV32I/RV64I base opcode with boundary and sampled register numbers/immediates.",
+   note="trusted: z3, vf/termsmt.T, vf/refs/x86.py (validated on the host CPU for every encoding that can run in a user-mode trampoline; faulting and control-transfer forms are validated by the model only), vf/refs/riscv.py; flags the SDM leaves undefined are not compared; results amoco leaves as 'top' are counted, not compared; encodings outside the listed subset (SSE/FPU/string/system) are outside the claim; known findings: RV64 *W/shift forms"),
 }
 
 NA_REASON = "check not built yet (construction in progress)"
